@@ -95,6 +95,13 @@ def window_alias(py: Dict[str, Any], rs: Dict[str, Any]) -> bool:
     return False
 
 
+# Round 5: report a low-power-state difference as a verdict of its own instead of filing it under @edge/@alias.
+# DISABLED: with True the unchanged tree fires `power / FF RESET / power:py=halted,rs=running` (RESET executed by a
+# core that starts halted; genuine, so far swallowed by C06-edge-class) -- waiting for the lead's decision on that
+# finding.  With True seeded/C06/r1 is caught (power / DE HALT, DF OFF); with False HALT/OFF divergences stay @edge.
+POWER_OWN_VERDICT = False
+
+
 def compare_step(case: Dict[str, Any], py: Dict[str, Any], rs: Dict[str, Any], init: pycore.HashMemory,
                  where: str, regs0: Optional[Dict[str, int]] = None) -> List[Violation]:
     """Field-level differential of one executed step."""
@@ -160,6 +167,17 @@ def compare_step(case: Dict[str, Any], py: Dict[str, Any], rs: Dict[str, Any], i
         space = "imem" if all(m[0] >= 0x100000 for m in memdiff) else ("emem" if all(m[0] < 0x100000 for m in memdiff) else "mixed")
         diffs.append(f"mem[{space}]:" + "+".join(kind))
         details.append("mem " + ", ".join(f"{a:#x}: py={x:#04x} rs={y:#04x}" for a, x, y, _, _ in memdiff[:6]))
+    near_top = (py.get("pc", 0) & 0xFFFFF) >= 0xFFFF0
+    pw = [d for d in diffs if d.startswith("power:")]
+    if POWER_OWN_VERDICT and pw and not near_top:
+        # The low-power state is not an address phenomenon: a data access at the first/last byte of a space (HALT and
+        # OFF always write SSR = 0x1000FF) or a window alias cannot explain it, so it is reported on its own and never
+        # filed under the @edge / @alias classes (only a fetch at the top of memory can make the cores decode
+        # different instructions, see @fetch-top).
+        out.append(Violation("power", where, "; ".join(pw), case,
+                             "; ".join(d for d in details if d.startswith("power "))))
+        diffs = [d for d in diffs if not d.startswith("power:")]
+        details = [d for d in details if not d.startswith("power ")]
     if diffs:
         sub = ",".join(sorted(d.split(":")[0] for d in diffs))
         if touches_edge(py, rs, py.get("pc")):
@@ -358,6 +376,12 @@ def lockstep(case: Dict[str, Any]) -> Tuple[List[Violation], int]:
     rust = rsclient.shared()
     rs = rust.cpu_batch([dict(case, want_reads=True)])[0]
     py = pycore.run_case(case, want_reads=True)
+    return lockstep_compare(case, py, rs)
+
+
+def lockstep_compare(case: Dict[str, Any], py: Dict[str, Any], rs: Dict[str, Any],
+                     note: str = "") -> Tuple[List[Violation], int]:
+    """Step-by-step differential of two recorded runs of the same case (see lockstep())."""
     init = pycore.HashMemory(case["seed"], {pycore.canon(a): v for a, v in case["mem"]})
     regs_prev = dict(case["regs"])
     steps_ok = 0
@@ -377,7 +401,7 @@ def lockstep(case: Dict[str, Any]) -> Tuple[List[Violation], int]:
         vs = compare_step(sub_case, ps, rss, init, where_of(pre, op, mn), regs_prev)
         if vs:
             for v in vs:
-                v.detail = f"lockstep step {k}: " + v.detail
+                v.detail = f"{note}lockstep step {k}: " + v.detail
             return vs, steps_ok
         for a, val in ps.get("writes", []):
             init.over[a] = val
@@ -386,7 +410,7 @@ def lockstep(case: Dict[str, Any]) -> Tuple[List[Violation], int]:
     return [], steps_ok
 
 
-def _record_program(rep: Report, case: Dict[str, Any], kind: str, sample: bool) -> None:
+def _record_program(rep: Report, case: Dict[str, Any], kind: str, sample: bool) -> Tuple[List[Violation], int]:
     vs, steps_ok = lockstep(case)
     for v in vs:
         rep.violate(v)
@@ -396,6 +420,7 @@ def _record_program(rep: Report, case: Dict[str, Any], kind: str, sample: bool) 
     rep.case(f"prog:{jhash([case['regs']['PC'], code.hex(), case['seed']])}" if steps_ok >= 3 else None,
              [f"kind:{kind}", f"{kind}:diverged" if vs else f"{kind}:agreed"],
              {"kind": kind, "pc": case["regs"]["PC"], "code_at_pc": code.hex(), "steps_compared": steps_ok} if sample else None)
+    return vs, steps_ok
 
 
 def _program_shard(task: Tuple[int, int, str, int]) -> Report:
@@ -425,6 +450,32 @@ def _program_shard(task: Tuple[int, int, str, int]) -> Report:
         _record_program(rep, case, "skeleton", pi % 53 == 0)
         case = selfmod_program(S.Stream(seed, 0x5E1F, shard, pi))
         _record_program(rep, case, "selfmod", pi % 59 == 0)
+    # flag-context programs (round 5): alone (even index) or as members of a pool of 2-4 live cores whose single
+    # steps are interleaved (odd index)
+    fops = flag_opcodes(ops)
+    pend: List[Dict[str, Any]] = []
+    want = 2
+    for pi in range(nprog):
+        st = S.Stream(seed, 0xFC7, shard, pi)
+        case, stats = fctx_program(st, fops)
+        rep.labels["fctx:whole-F-writes>=2" if stats["whole_writes"] >= 2 else "fctx:whole-F-writes<2"] += 1
+        if stats["same_byte"]:
+            rep.labels["fctx:restores-same-byte"] += 1
+        if stats["ir"]:
+            rep.labels["fctx:has-IR..RETI"] += 1
+        rep.extra["fctx_whole_F_writes"] = rep.extra.get("fctx_whole_F_writes", 0) + stats["whole_writes"]
+        rep.extra["fctx_flag_instrs"] = rep.extra.get("fctx_flag_instrs", 0) + stats["flag_instrs"]
+        if pi % 2 == 0:
+            vs, ok = _record_program(rep, case, "fctx", pi % 31 == 0)
+            rep.labels["fctx:ran-to-end" if ok == case["steps"] else "fctx:cut-short"] += 1
+        else:
+            if not pend:
+                want = 2 + st.below(3)
+            pend.append(case)
+            if len(pend) == want or pi >= nprog - 2:
+                keys = [jhash([c["regs"]["PC"], c["seed"], c["steps"]]) for c in pend]
+                _record_pool(rep, pend, pool_schedule(st, pend), "fctx-pool", keys, pi % 29 == 0)
+                pend = []
     return rep
 
 
@@ -541,11 +592,324 @@ def skeleton_program(st: S.Stream) -> Dict[str, Any]:
     return {"regs": regs, "power": "running", "seed": st.u32(), "mem": mem, "steps": steps}
 
 
+# ---------------------------------------------------------------------------------------------------------------
+# Round 5 (a): pools of live cores.  Everywhere above one Python Emulator is constructed and stepped at once, so at
+# any moment exactly one core exists that has not finished.  Here K cores are constructed first (one per member
+# case, each on its own memory) and stepped afterwards in a generated schedule (single steps of different members
+# interleaved); every member is compared with an independent Rust run of the same case exactly as above.
+def run_pool_python(members: List[Dict[str, Any]], schedule: List[int]) -> List[Dict[str, Any]]:
+    emus = [pycore.make_emulator(c, log_reads=True) for c in members]      # all constructed before any step
+    steps: List[List[Dict[str, Any]]] = [[] for _ in members]
+    done = [False] * len(members)
+    pre_halted = [False] * len(members)
+    for i in schedule:
+        if done[i]:
+            continue
+        emu, mem = emus[i]
+        c = members[i]
+        if len(steps[i]) >= int(c.get("steps", 1)):
+            done[i] = True
+            continue
+        if emu.state.halted and c.get("stop_on_halt", True):
+            if not steps[i] and c.get("power", "running") == "running":
+                pre_halted[i] = True
+            done[i] = True
+            continue
+        sres = pycore.step(emu, mem, False, True)
+        steps[i].append(sres)
+        if "err" in sres:
+            done[i] = True
+    return [{"ok": True, "steps": st, "pre_halted": ph} for st, ph in zip(steps, pre_halted)]
+
+
+def pool_schedule(st: S.Stream, members: List[Dict[str, Any]]) -> List[int]:
+    """Every member gets exactly its number of steps; the order of single steps across members is generated."""
+    todo = [i for i, c in enumerate(members) for _ in range(int(c.get("steps", 1)))]
+    for k in range(len(todo) - 1, 0, -1):
+        j = st.below(k + 1)
+        todo[k], todo[j] = todo[j], todo[k]
+    return todo
+
+
+def eval_pool(members: List[Dict[str, Any]], schedule: List[int],
+              only: Optional[int] = None) -> List[Tuple[List[Violation], int, Dict[str, Any], Dict[str, Any]]]:
+    """Returns per member (violations, agreeing steps, python result, rust result)."""
+    rust = rsclient.shared()
+    rs_all = rust.cpu_batch([dict(c, want_reads=True) for c in members])
+    py_all = run_pool_python(members, schedule)
+    out = []
+    for i, (c, py, rs) in enumerate(zip(members, py_all, rs_all)):
+        if only is not None and i != only:
+            out.append(([], 0, py, rs))
+            continue
+        first = schedule.index(i) if i in schedule else -1
+        note = (f"pool member {i} of {len(members)} (constructed before {len(members) - 1 - i} other live cores, "
+                f"first stepped at schedule position {first}): ")
+        case = dict(c)
+        case["pool"] = {"members": members, "schedule": schedule, "index": i}
+        if not rs.get("steps"):
+            rs = dict(rs, steps=[{"err": rs.get("error") or rs.get("panic") or "no step"}])
+        if py.get("pre_halted") and "err" not in rs["steps"][0]:
+            code = S.code_of(c, 8)
+            ln = G.info_len(code + G.NOP_PAD)
+            mn, _ = describe(code[:ln] if ln else code)
+            pre = code[0] if code[0] in G.PRE_OPCODES else None
+            op = code[1] if pre is not None else code[0]
+            vs = [Violation("power", where_of(pre, op, mn), "power:py=halted-before-first-step,rs=running", case,
+                            note + "the Python core was in the low-power state before executing anything although "
+                                   "the case starts it running")]
+            out.append((vs, 0, py, rs))
+            continue
+        vs, ok = lockstep_compare(case, py, rs, note)
+        out.append((vs, ok, py, rs))
+    return out
+
+
+def _record_pool(rep: Report, members: List[Dict[str, Any]], schedule: List[int], kind: str,
+                 keys: List[Any], sample: bool) -> None:
+    res = eval_pool(members, schedule)
+    rep.labels[f"{kind}:pools"] += 1
+    rep.labels[f"{kind}:size={len(members)}"] += 1
+    for i, ((vs, ok, py, rs), c) in enumerate(zip(res, members)):
+        for v in vs:
+            rep.violate(v)
+        ps = py["steps"][0] if py["steps"] else {"err": "no step"}
+        rss = rs["steps"][0] if rs.get("steps") else {"err": "no step"}
+        nt = ok >= 3 if int(c.get("steps", 1)) > 1 else nontrivial(c, ps, rss)
+        lab = [f"kind:{kind}", f"{kind}:diverged" if vs else f"{kind}:agreed",
+               f"{kind}:member-" + ("newest" if i == len(members) - 1 else "older")]
+        if "err" in ps:
+            lab.append("python-exception")
+        rep.case(f"{kind}:{keys[i]}" if nt else None, lab,
+                 {"kind": kind, "pool_size": len(members), "schedule": schedule, "member": i,
+                  "code": S.code_of(c, 6).hex(), "steps_compared": ok} if sample and i == 0 else None)
+
+
+def _pool_shard(task: Tuple[int, int, int, str]) -> Report:
+    """Single-instruction pools: for every opcode one (quick) / four (thorough) pools of 2-5 members in which that
+    opcode is executed by a member that is NOT the most recently constructed core; the other members are drawn
+    from all opcodes.  States as in the single-step class (incl. 1/16 starting halted)."""
+    shard, nshards, seed, tier = task
+    rep = Report()
+    all_ops = [o for o in range(256) if not G.is_pre(o)]
+    rounds = 1 if tier == "quick" else 4
+    for op in all_ops:
+        if op % nshards != shard:
+            continue
+        for rnd in range(rounds):
+            st = S.Stream(seed, 0x9001, op, rnd)
+            k = 2 + st.below(4)
+            target = st.below(k - 1)
+            members, keys = [], []
+            for j in range(k):
+                pre_j = G.PRE_OPCODES[st.below(len(G.PRE_OPCODES))] if st.chance(1, 3) else None
+                op_j = op if j == target else all_ops[st.below(len(all_ops))]
+                e1, filtered = G.sample_valid_encodings(st.u32(), 1, pres=[pre_j], opcodes=[op_j])
+                rep.filtered += filtered
+                if not e1:
+                    continue
+                code = e1[0][1]
+                mn, _shape = describe(code)
+                case, labels = S.gen_state(st, code, mn, imax=12)
+                _maybe_low_power(st, case, labels)
+                members.append(case)
+                keys.append(f"{pre_j}:{op_j:02X}:{jhash([code.hex(), case['seed']])}")
+            if len(members) < 2:
+                continue
+            _record_pool(rep, members, pool_schedule(st, members), "pool", keys, (op + rnd) % 41 == 0)
+    return rep
+
+
+# ---------------------------------------------------------------------------------------------------------------
+# Round 5 (b): flag-context programs.  The straight-line programs above leave out every opcode named by an open
+# finding, among them all instructions that read or write F as a whole (PUSHU/PUSHS F, POPU/POPS F, RETI, IR), and
+# the single-step class executes them only on a freshly initialised state.  These programs interleave whole-F
+# writes and reads with flag-changing instructions on ONE state, inside the domain on which the cores are stated
+# (and found) to agree for those opcodes: F bits 2-7 are zero initially and in every byte that is popped into F
+# (the open F-byte findings are about bits 2-7 only; they still apply unchanged if such a byte turns up).
+_OP_PUSHU_F, _OP_POPU_F, _OP_PUSHS_F, _OP_POPS_F, _OP_RETI, _OP_IR = 0x2E, 0x3E, 0x4F, 0x5F, 0x01, 0xFE
+FLAG_MNEMONICS = frozenset(("ADD", "SUB", "ADC", "SBC", "CMP", "AND", "OR", "XOR", "TEST", "INC", "DEC", "SC", "RC",
+                            "ROR", "ROL", "SHR", "SHL", "SWAP", "CMPW", "CMPP"))
+IR_VECTOR = 0xFFFFA
+_fctx_checked = False
+_flag_ops_cache: Dict[Tuple[int, ...], List[int]] = {}
+
+
+def _check_fctx_templates() -> None:
+    global _fctx_checked
+    if _fctx_checked:
+        return
+    for op, mn, operand in ((_OP_PUSHU_F, "PUSHU", "F"), (_OP_POPU_F, "POPU", "F"), (_OP_PUSHS_F, "PUSHS", "F"),
+                            (_OP_POPS_F, "POPS", "F"), (_OP_RETI, "RETI", ""), (_OP_IR, "IR", "")):
+        r = TP.tokens(bytes([op]) + G.NOP_PAD)
+        if r is None or TP.mnemonic(r[0]) != mn or r[1] != 1 or (operand and ("Reg", operand) not in r[0]):
+            raise HarnessError(f"flag-context template {op:02X} does not decode as {mn} {operand}: {r}")
+    _fctx_checked = True
+
+
+def flag_opcodes(allowed: List[int]) -> List[int]:
+    """Opcodes of `allowed` whose mnemonic is an arithmetic/logic/compare/shift/flag instruction."""
+    key = tuple(allowed)
+    if key not in _flag_ops_cache:
+        out = []
+        for op in allowed:
+            vb = G.valid_b2(op)
+            code = bytes([op, vb[0] if vb else 0, 0, 0, 0, 0])
+            mn, _ = describe(code)
+            if mn in FLAG_MNEMONICS:
+                out.append(op)
+        _flag_ops_cache[key] = out
+    return _flag_ops_cache[key]
+
+
+def _flag_filler(st: S.Stream, fops: List[int]) -> Optional[bytes]:
+    """One generated flag-changing instruction that does not name U or S (their values are tracked statically)."""
+    for _ in range(6):
+        pre_j = G.PRE_OPCODES[st.below(len(G.PRE_OPCODES))] if st.chance(1, 4) else None
+        e1, _f = G.sample_valid_encodings(st.u32(), 1, pres=[pre_j], opcodes=[fops[st.below(len(fops))]])
+        if not e1:
+            continue
+        code = e1[0][1]
+        r = TP.tokens(code + G.NOP_PAD)
+        if r is None or any(k == "Reg" and t in ("U", "S") for k, t in r[0]):
+            continue
+        return code
+    return None
+
+
+def fctx_program(st: S.Stream, fops: List[int]) -> Tuple[Dict[str, Any], Dict[str, int]]:
+    """6-24 instructions: whole-F writers (POPU F, POPS F, RETI with a prepared frame, IR .. RETI through the
+    interrupt vector), whole-F readers (PUSHU F, PUSHS F) and generated flag-changing instructions in between.
+    Popped bytes are drawn from 0..3, half of the time equal to the byte of the previous whole-F write
+    (restore-the-same-value, the PUSH F .. POP F / IR .. RETI idiom)."""
+    _check_templates()
+    _check_fctx_templates()
+    page = 0x10000 * (1 + st.below(12))
+    main = page | (0x0200 + (st.below(0xE000) & 0xFFF0))
+    handler = (0x10000 * (1 + st.below(12))) | (0x0200 + (st.below(0xE000) & 0xFFF0))
+    if abs(handler - main) < 0x400:
+        handler = (handler + 0x1000) & 0xFFFFF
+    u = 0xD0000 + 0x100 + st.below(0x7000) * 2
+    s_ = 0xE0000 + 0x100 + st.below(0x7000) * 2
+    f0 = st.below(4)
+    regs = {"BA": st.word(), "I": st.word(), "X": st.pointer(False)[0], "Y": st.pointer(False)[0],
+            "U": u, "S": s_, "F": f0, "PC": main}
+    mem: Dict[int, int] = {}
+    stats = {"whole_writes": 0, "same_byte": 0, "flag_instrs": 0, "reads": 0, "ir": 0}
+    last_whole: Optional[int] = f0
+    cursor = main
+    ret_to: Optional[int] = None
+    steps = 0
+
+    def emit(code: bytes) -> None:
+        nonlocal cursor, steps
+        for b in code:
+            mem[cursor & 0xFFFFF] = b
+            cursor += 1
+        steps += 1
+
+    def pop_byte(addr: int) -> None:
+        nonlocal last_whole
+        if addr in mem:                      # placed for an earlier pop of the same cell
+            last_whole = mem[addr]
+            return
+        v = last_whole if (last_whole is not None and st.chance(1, 2)) else st.below(4)
+        if v == last_whole:
+            stats["same_byte"] += 1
+        mem[addr] = v
+        last_whole = v
+
+    n = 6 + st.below(19)
+    pushed: set = set()
+    for _k in range(n):
+        r = st.below(16)
+        leave = ret_to is not None and (r >= 13 or _k == n - 1)
+        if ret_to is not None and r in (2, 3, 5):                # inside the handler S stays balanced: use the U forms
+            r = 1 if r != 5 else 4
+        if leave:        # leave the handler: RETI pops the frame IR pushed
+            emit(bytes([_OP_RETI]))
+            s_ += 5
+            cursor, ret_to, last_whole = ret_to, None, None
+            stats["whole_writes"] += 1
+        elif r < 2:                                              # POPU F
+            emit(bytes([_OP_POPU_F]))
+            if u in pushed:
+                last_whole = None
+            else:
+                pop_byte(u)
+            u += 1
+            stats["whole_writes"] += 1
+        elif r < 4:                                              # POPS F
+            emit(bytes([_OP_POPS_F]))
+            if s_ in pushed:
+                last_whole = None
+            else:
+                pop_byte(s_)
+            s_ += 1
+            stats["whole_writes"] += 1
+        elif r == 4:                                             # PUSHU F
+            emit(bytes([_OP_PUSHU_F]))
+            u -= 1
+            pushed.add(u)
+            stats["reads"] += 1
+        elif r == 5:                                             # PUSHS F
+            emit(bytes([_OP_PUSHS_F]))
+            s_ -= 1
+            pushed.add(s_)
+            stats["reads"] += 1
+        elif r == 6 and ret_to is None:                          # RETI with a prepared frame: IMR, F, PC (3 bytes)
+            emit(bytes([_OP_RETI]))
+            frame = [s_ + i for i in range(5)]
+            if any(a in pushed for a in frame):                  # frame overlaps bytes pushed earlier: stop here
+                steps -= 1
+                cursor -= 1
+                mem.pop(cursor & 0xFFFFF, None)
+                break
+            mem.setdefault(frame[0], st.byte())
+            pop_byte(frame[1])
+            nxt = cursor & 0xFFFFF
+            if any(a in mem and mem[a] != b for a, b in zip(frame[2:], (nxt & 0xFF, (nxt >> 8) & 0xFF, nxt >> 16))):
+                steps -= 1
+                cursor -= 1
+                mem.pop(cursor & 0xFFFFF, None)
+                break
+            mem[frame[2]], mem[frame[3]], mem[frame[4]] = nxt & 0xFF, (nxt >> 8) & 0xFF, nxt >> 16
+            s_ += 5
+            stats["whole_writes"] += 1
+        elif r == 7 and ret_to is None and _k < n - 2 and not stats["ir"]:   # IR (once): push PC, F, IMR; go on at the vector target
+            emit(bytes([_OP_IR]))
+            mem[IR_VECTOR], mem[IR_VECTOR + 1], mem[IR_VECTOR + 2] = handler & 0xFF, (handler >> 8) & 0xFF, handler >> 16
+            ret_to = cursor
+            cursor = handler
+            for i in range(1, 6):
+                pushed.add(s_ - i)
+            s_ -= 5
+            stats["ir"] += 1
+            stats["reads"] += 1
+        else:
+            code = _flag_filler(st, fops) if st.chance(7, 8) else FILLERS[st.below(len(FILLERS))]
+            if code is None:
+                code = bytes([0x97 if st.chance(1, 2) else 0x9F])   # SC / RC (checked by _check_templates: 97)
+            emit(code)
+            stats["flag_instrs"] += 1
+    if ret_to is not None:                                       # never stop inside the handler without its RETI
+        emit(bytes([_OP_RETI]))
+        cursor = ret_to
+        stats["whole_writes"] += 1
+    for i in range(8):
+        mem.setdefault((cursor + i) & 0xFFFFF, 0x00)
+    mem[S.IMEM + S.BP], mem[S.IMEM + S.PX], mem[S.IMEM + S.PY] = st.byte(), st.byte(), st.byte()
+    case = {"regs": regs, "power": "running", "seed": st.u32(),
+            "mem": [[a, v] for a, v in sorted(mem.items())], "steps": steps}
+    return case, stats
+
+
 def run(ctx: Ctx) -> Report:
     rsclient.build()
     nshards = 16 if ctx.quick else 64
     reports = ctx.pmap(_shard, [(i, nshards, ctx.seed, ctx.tier) for i in range(nshards)])
     reports += ctx.pmap(_landmark_shard, [(i, 16, ctx.seed, ctx.tier) for i in range(16)])
+    reports += ctx.pmap(_pool_shard, [(i, 16, ctx.seed, ctx.tier) for i in range(16)])
     nprog = ctx.pick(16, 320)
     reports += ctx.pmap(_program_shard, [(i, ctx.shard_seed(500 + i), ctx.tier, nprog) for i in range(16)])
     rep = ctx.merge_reports(reports)
@@ -564,6 +928,9 @@ def run(ctx: Ctx) -> Report:
 def replay(ctx: Ctx, case: Dict[str, Any]) -> List[Violation]:
     rsclient.build()
     rep = Report()
+    if isinstance(case.get("pool"), dict):
+        pool = case["pool"]
+        return eval_pool(pool["members"], [int(i) for i in pool["schedule"]], int(pool["index"]))[int(pool["index"])][0]
     if int(case.get("steps", 1)) > 1:
         vs, _ = lockstep(case)
         return vs
